@@ -122,9 +122,53 @@ out:
   sb_free(&f); sb_free(&sig); sb_free(&a); sb_free(&b);
 }
 
+/* ---- layered reads: the path query of a result merged from several files is the empty string, whatever the files contain ---- */
+static int lp_main, lp_a, lp_b, lp_ep;
+static void gen_lp(void) { lp_main = mc_choose(2); lp_a = mc_choose(4); lp_b = mc_choose(4); lp_ep = mc_choose(2); }
+static void exec_lp(void)
+{
+  static const char *KIND[4] = { "absent", "with keys", "comments only", "empty" };
+  char d0[400], d1[400], p[600], sig[300];
+  snprintf(d0, sizeof d0, "%s/lp/usr", mc_work); snprintf(d1, sizeof d1, "%s/lp/etc", mc_work);
+  char cmd[1200]; snprintf(cmd, sizeof cmd, "rm -rf %s/lp && mkdir -p %s/cfg.conf.d %s/cfg.conf.d", mc_work, d0, d1);
+  if (system(cmd) != 0) mc_die("mkdir");
+  snprintf(sig, sizeof sig, "layered read via %s: main file %s, vendor drop-in %s, local drop-in %s", lp_ep ? "econf_readConfig(PARSING_DIRS)" : "econf_readDirs",
+           lp_main ? "present" : "absent", KIND[lp_a], KIND[lp_b]);
+  snprintf(mc_case_sig, sizeof mc_case_sig, "%s", sig);
+  mc_log("%s\n", sig);
+  int n = 0;
+  const char *content[4] = { NULL, "k=drop\nextra=1\n", "# only a comment\n#k=1\n", "" };
+  if (lp_main) { snprintf(p, sizeof p, "%s/cfg.conf", d0); mc_write_file(p, "k=main\n[S]\ns=1\n", 16); n++; }
+  if (lp_a) { snprintf(p, sizeof p, "%s/cfg.conf.d/10-a.conf", d0); mc_write_file(p, content[lp_a], strlen(content[lp_a])); n++; }
+  if (lp_b) { snprintf(p, sizeof p, "%s/cfg.conf.d/20-b.conf", d1); mc_write_file(p, content[lp_b], strlen(content[lp_b])); n++; }
+  econf_file *kf = NULL; econf_err rc;
+  if (lp_ep) { char opt[900]; snprintf(opt, sizeof opt, "PARSING_DIRS=%s:%s", d0, d1); rc = econf_newKeyFile_with_options(&kf, opt); if (!rc) rc = econf_readConfig(&kf, NULL, NULL, "cfg", "conf", "=", "#"); }
+  else rc = econf_readDirs(&kf, d0, d1, "cfg", "conf", "=", "#");
+  mc_st->libcalls += 2;
+  if (n == 0) { if (rc != ECONF_NOFILE) mc_fail(sig, "no file but rc=%d; %s", (int)rc, sig); }
+  else if (rc != ECONF_SUCCESS || !kf) mc_fail(sig, "layered read failed: %d; %s", (int)rc, sig);
+  else if (n >= 2) {
+    char *path = econf_getPath(kf);
+    if (!path || *path) mc_fail(sig, "econf_getPath of a result merged from %d files = \"%s\", expected the empty string; %s", n, path ? path : "<NULL>", sig);
+    free(path);
+  }
+  if (kf) econf_freeFile(kf);
+  mc_st->compared++;
+  if (n >= 2) mc_st->nontrivial++;
+  mc_outcome((uint64_t)(lp_main * 64 + lp_a * 16 + lp_b * 4 + lp_ep));
+  if (mc_want_sample()) mc_sample("%s", sig);
+}
+
 int main(int argc, char **argv)
 {
   mc_args(argc, argv);
+  if (mc_opt.param[3]) {
+    mc_split = 2;
+    if (mc_opt.case_id) return mc_replay(gen_lp, exec_lp, mc_opt.case_id);
+    if (mc_explore(gen_lp, exec_lp, 0, 0)) mc_st->bound_completed = 0;
+    mc_finish();
+    return 0;
+  }
   if (mc_opt.param[0]) Nmax = (int)mc_opt.param[0];
   Dmax = (int)mc_opt.param[1];
   cg_opt_rich = (int)mc_opt.param[2];
